@@ -77,6 +77,28 @@ Theorem C13_ser_into_sched : forall t v sched,
 Proof. exact ser_into_sched_spec. Qed.
 Print Assumptions C13_ser_into_sched.
 
+(* ---- the same, read directly on the code REGENERATED from serial.rs / primitive.rs (gen/SerialImplGen.v) ---- *)
+From Sucds Require Import Base.SerialDict gen.SerialImplGen Proofs.SerialImplTie.
+Theorem C13_generated_prefix_err : forall c t v n,
+  vec_ok t = true -> wf_val t v = true -> size t v < W ->
+  exists bytes, sd_ser (dict_of mem_io c t) v [] = ok (bytes, lenN bytes) /\
+                ((n < length bytes)%nat -> sd_deser (dict_of mem_io c t) (firstn n bytes) = err).
+Proof. exact gen_prefix_err. Qed.
+Print Assumptions C13_generated_prefix_err.
+Theorem C13_generated_budget : forall c t v written budget, wf_val t v = true -> size t v < W ->
+  sd_ser (dict_of budget_io c t) v (written, budget) =
+  if size t v <=? budget then ok ((written ++ ser t v, budget - size t v), size t v) else err.
+Proof. exact tie_ser_budget. Qed.
+Print Assumptions C13_generated_budget.
+Theorem C13_generated_read_schedule : forall c t d sched,
+  vec_ok t = true -> agrees_d fst (sd_deser (dict_of sched_io c t) (d, sched)) (deser t d).
+Proof. exact tie_deser_sched. Qed.
+Print Assumptions C13_generated_read_schedule.
+Theorem C13_generated_write_schedule : forall c t v out sched, wf_val t v = true -> size t v < W ->
+  exists sched', sd_ser (dict_of sched_io c t) v (out, sched) = ok ((out ++ ser t v, sched'), size t v).
+Proof. exact tie_ser_sched. Qed.
+Print Assumptions C13_generated_write_schedule.
+
 (* non-vacuity on a nested value: all 34 strict prefixes fail, a hostile read schedule changes
    nothing, a budget of 33 fails and 34 succeeds *)
 Example C13_nonvacuous :
